@@ -26,6 +26,7 @@ class Contract:
     assumed = False          # True: contract of a dependency / external (never verified here)
     ext_may_raise = False
     max_paths = 4000
+    sequential = False       # True: the clauses of ensures / of an invariant are proved in order, each a hypothesis of the later ones
 
     # -- to be overridden
     def setup(self, E, variant):
@@ -97,6 +98,8 @@ def make_registry():
     models.install(R)
     from . import pdmodel
     pdmodel.install(R)
+    from . import permmodel
+    permmodel.install(R)
     return R
 
 
@@ -154,9 +157,13 @@ def verify_function(repo, contracts, c, registry=None, scope=None, opts=None):
                     # is a failed clause, not an engine error
                     E.cur_func = func
                     post = {"postcondition_code_raises_" + r2.cls: z3.BoolVal(False)}
+                n_pc = len(E.pc)
                 for name, g in post.items():
                     for gg in (g if isinstance(g, list) else [g]):     # a clause may be split into several queries
                         E.oblige("%s.%s.post.%s" % (c.prop, qn, name), gg, "post")
+                        if c.sequential:
+                            E.assume(gg)     # clauses are proved in order: an earlier clause is a hypothesis of the later ones
+                del E.pc[n_pc:]
                 for name, fn in c.canaries.items():
                     E.oblige("%s.%s.canary.%s" % (c.prop, qn, name), fn(E, a, res, old), "canary", canary=True)
             else:
